@@ -158,7 +158,7 @@ func BuildInput(ws WorldSpec) Input {
 
 var legalNames = []string{"base1", "gcc", "kde", "dev_1", "x", "L2", "stage-3", "a", "ab", "abc", "b", "zz9"}
 var oddNames = []string{"", "-lead", "has space", "sl/ash", "dot.name", "base1~removed", "tilde~", "$x",
-	strings.Repeat("n", 70), "nosuch", "é"}
+	strings.Repeat("n", 70), "nosuch", "é", strings.Repeat("L", 256), strings.Repeat("m", 255), strings.Repeat("x", 400)}
 
 func PickName(r *rng.R) string {
 	if r.Chance(1, 5) {
